@@ -1,5 +1,6 @@
 import PbVerif.Model.Msg
 import PbVerif.Lemmas.WireSpec
+import PbVerif.Lemmas.MsgBasic
 /-
 C04 — `proto.Size` equals the length of the `Marshal` output.
 
@@ -63,12 +64,8 @@ end
 /-! ### the encoding of a field list is the concatenation of the encodings of its fields
 (`MarshalAppend` appends field after field; nothing written earlier is touched) -/
 
-def Fields.append : Fields → Fields → Fields
-  | .nil, ys => ys
-  | .cons n x tl, ys => .cons n x (Fields.append tl ys)
-
 theorem encFields_append (S : Schema) (d : MsgD) : ∀ xs ys : Fields,
-    encFields S d (Fields.append xs ys) = encFields S d xs ++ encFields S d ys
+    encFields S d (xs.append ys) = encFields S d xs ++ encFields S d ys
   | .nil, ys => by simp [Fields.append, encFields]
   | .cons n x tl, ys => by
     simp only [Fields.append, encFields, encFields_append S d tl ys, List.append_assoc]
